@@ -166,3 +166,19 @@ proof fn lemma_sd_list_ok_sorted(o: Seq<(Seq<char>, J)>, ss: Seq<Seq<char>>)
 {
     lemma_j_idx0(o, K_SD());
 }
+// ---- number of disclosures an issuance creates (C05: every designated node gets exactly one) ----
+spec fn hcount(j: J, s: Strat) -> nat decreases j, 0nat {
+    match j { J::Arr(a) => hcount_arr(a, s, a.len()), J::Obj(m) => hcount_members(m, s, m.len()), _ => 0 }
+}
+spec fn hcount_arr(a: Seq<J>, s: Strat, n: nat) -> nat decreases a, n {
+    if n == 0 || n > a.len() { 0 } else {
+        let k = index_key_spec(n - 1);
+        hcount_arr(a, s, (n - 1) as nat) + hcount(a[n - 1], next_spec(s, k)) + (if sd_spec(s, k) { 1nat } else { 0nat })
+    }
+}
+spec fn hcount_members(m: Seq<(Seq<char>, J)>, s: Strat, n: nat) -> nat decreases m, n {
+    if n == 0 || n > m.len() { 0 } else {
+        let (k, v) = m[n - 1];
+        hcount_members(m, s, (n - 1) as nat) + hcount(v, next_spec(s, k)) + (if sd_spec(s, k) { 1nat } else { 0nat })
+    }
+}
